@@ -65,6 +65,11 @@ pub struct Req {
     /// answer either way — 200, or 206 with the range clamped (RFC 9110 14.1.2) — never 416
     #[serde(default)]
     pub range_beyond_end: bool,
+    /// (after wave 16) fault: just before this request another client asks for a large file through a small window, reads a
+    /// little and resets its connection — the server's write fails half way. What that client was owed is nobody's business;
+    /// this request must be answered as always
+    #[serde(default)]
+    pub neighbour_aborts_a_large_download: bool,
 }
 #[derive(Clone, Debug, Serialize, Deserialize)]
 pub struct Scenario {
@@ -262,7 +267,7 @@ pub fn generate(_cfg: &RunCfg, _out: &mut Outcome) -> Scenario {
             }
         };
         let path = if path.is_empty() { "/".to_string() } else { path };
-        reqs.push(Req { method: method.into(), path, kind: kind.into(), mutate_before, range_beyond_end: t::chance(1, 10) });
+        reqs.push(Req { method: method.into(), path, kind: kind.into(), mutate_before, range_beyond_end: t::chance(1, 10), neighbour_aborts_a_large_download: t::chance(1, 5) });
     }
     Scenario { files, outside, mount, omit, reqs, second, mount_via: t::weighted(&[6, 1, 1, 1, 1]) as u8 }
 }
@@ -531,6 +536,8 @@ fn execute(sc: &Scenario, out: &mut Outcome) {
         out.probe("c19.file_of_64_kib_or_more");
     }
     let window_for_large = 700 + sc.files.iter().map(|f| f.bytes().len()).sum::<usize>() % 90_000;
+    // a route that serves a large file (None when the configuration has none, or is refused at start-up)
+    let large_route: Option<String> = expected.iter().find(|(_, (_, b))| b.len() >= 65_536).map(|(r, _)| r.clone());
     simcore::spawn_task("client", "client", async move {
         let mut c: Option<Client> = None;
         for r in &reqs {
@@ -565,6 +572,16 @@ fn execute(sc: &Scenario, out: &mut Outcome) {
                         let _ = std::fs::create_dir_all(&p);
                         simcore::with(|w| w.count("fault.fs_replace_by_dir"));
                     }
+                }
+            }
+            if let (true, Some(lr)) = (r.neighbour_aborts_a_large_download, &large_route) {
+                if let Ok(mut nb) = Client::connect(rt::ADDR, ConnCfg { short_writes: true, window: 300, ..ConnCfg::default() }).await {
+                    nb.send(format!("GET {lr} HTTP/1.1\r\nHost: s\r\n\r\n").as_bytes(), 0);
+                    let _ = nb.fill(200, DEFAULT_TIMEOUT).await;
+                    nb.send_rst(std::io::ErrorKind::ConnectionReset, 0);
+                    simcore::with(|w| w.count("fault.download_aborted_half_way"));
+                    drop(nb);
+                    simcore::sleep(simcore::MS).await;
                 }
             }
             if c.is_none() {
